@@ -3,6 +3,7 @@ package main
 // C23: the etcd and redis metadata stores behave identically (structural siblings: constants, failure classes, atomic creates).
 
 import (
+	"go/token"
 	"fmt"
 	"go/ast"
 	"go/constant"
@@ -152,7 +153,7 @@ func setStr(m map[string]bool) string {
 func checkC23(p *Prog, r *Result, tier string) {
 	r.Technique = "sibling agreement between the two store.Store implementations: equality of the key-layout constants (constant evaluation), agreement of failure classes per interface method (which error sentinels, mapped to classes by a frozen table, each implementation and its same-backend callees can produce), and an atomicity rule for multi-key conditional creates (one conditional transaction with an inspected result vs. a pipeline of independent SETNX)"
 	r.Explanation = "KC every key-layout constant has the same name and value in both backends; FC for every method of store.Store the failure classes {not-found, exists, has-children, invalid-argument} that the etcd implementation can produce are exactly those the redis implementation can produce (sentinels used in value position, followed through same-backend callees; a class on one side only means some operation fails in one backend and succeeds in the other); " +
-		"DL where the etcd implementation turns 'nothing was deleted' into not-found, the redis implementation inspects DEL's count as well; AT a create of several keys is one conditional operation whose outcome is inspected — etcd: a single transaction comparing Version(key) == 0 for every key; redis: must not be a pipeline that issues an independent SETNX per key (the keys that were absent are written although the call reports failure), and the per-key results must be looked at."
+		"CW in every store function that creates conditionally, no plain write (put/set/delete/update) lies on a path to the conditional create — a refused create has then changed nothing; DC both backends decrease the in-progress counter by exactly one (etcd: Itoa(Atoi(value read) − 1), redis: one DECR); DL where the etcd implementation turns 'nothing was deleted' into not-found, the redis implementation inspects DEL's count as well; AT a create of several keys is one conditional operation whose outcome is inspected — etcd: a single transaction comparing Version(key) == 0 for every key; redis: must not be a pipeline that issues an independent SETNX per key (the keys that were absent are written although the call reports failure), and the per-key results must be looked at."
 	r.NotCovered = "equality of the stored metadata after arbitrary sequences; ordering and limits of list results; error classes produced by the servers themselves"
 	r.Assumptions = []string{"the failure-class table (printed under tables) maps each sentinel to the class a caller can observe"}
 	r.Tables["failure_classes"] = c23Class
@@ -469,6 +470,173 @@ func checkC23(p *Prog, r *Result, tier string) {
 		default:
 			r.ok("AT", key, p.pos(condCall), how+"; its reply decides between nil and an error")
 		}
+	}
+
+	// ---- CW: a failed create leaves the store unchanged — nothing is written before the conditional create
+	r.min("CW", 8)
+	condCreate := map[string]bool{"BatchCreate": true, "batchCreate": true, "BatchCreateAndDecr": true, "Create": true, "MSetNX": true, "SetNX": true}
+	plainWrite := map[string]bool{"BatchPut": true, "batchPut": true, "Put": true, "Set": true, "BatchUpdate": true, "Update": true, "BatchDelete": true, "Delete": true, "Del": true,
+		"HSet": true, "Expire": true, "Decr": true, "Incr": true, "MSet": true}
+	storeCall := func(fn *FuncNode, c *ast.CallExpr, set map[string]bool) bool {
+		f := fn.Callee(c)
+		if f == nil || !set[f.Name()] || f.Pkg() == nil {
+			return false
+		}
+		pp := f.Pkg().Path()
+		return strings.Contains(pp, "go-redis") || strings.HasSuffix(pp, "store/redis") || strings.HasSuffix(pp, "store/etcdv3/meta") || strings.HasSuffix(pp, "store/etcdv3") || strings.Contains(pp, "etcd/client/v3")
+	}
+	for _, fn := range p.sortedFuncs("store/redis", "store/etcdv3") {
+		if fn.Body == nil || fn.Lit != nil || strings.Contains(fn.Name, "embedded") {
+			continue
+		}
+		// the primitives themselves are judged by AT
+		if fn.Obj != nil && (condCreate[fn.Obj.Name()] || fn.Obj.Name() == "doBatchOp") {
+			continue
+		}
+		var creates []*ast.CallExpr
+		fn.inspectBody(func(n ast.Node) bool {
+			if c, ok := n.(*ast.CallExpr); ok && storeCall(fn, c, condCreate) {
+				creates = append(creates, c)
+			}
+			return true
+		})
+		for i, cc := range creates {
+			key := fmt.Sprintf("%s / nothing is written before the conditional create #%d", fn.Name, i+1)
+			target := fn.find(cc)
+			var offender ast.Node
+			// a plain write from which the conditional create can still be reached
+			fn.inspectBody(func(n ast.Node) bool {
+				c, ok := n.(*ast.CallExpr)
+				if !ok || offender != nil || !storeCall(fn, c, plainWrite) {
+					return true
+				}
+				from := fn.find(c)
+				if !from.valid() || !target.valid() {
+					return true
+				}
+				if _, reaches := fn.reach(from, true, func(x nodeRef) bool { return x == target }, nil, false); reaches || (from.b == target.b && from.i < target.i) {
+					offender = c
+				}
+				return true
+			})
+			if offender != nil {
+				r.bad("CW", key, p.pos(offender), "`"+exprStr(offender.(*ast.CallExpr).Fun)+"` writes unconditionally on a path that leads to the conditional create at "+p.pos(cc)+": when the create is refused because the entity exists, that write has already changed the store (and, for keys of the existing entity, overwritten its data) — the other backend creates everything in the one conditional operation")
+			} else {
+				r.ok("CW", key, p.pos(cc), "no plain write can reach the conditional create")
+			}
+		}
+	}
+
+	// ---- DC: the in-progress counter is decreased by exactly one in both backends
+	r.min("DC", 2)
+	if E := p.Fn("store/etcdv3/meta.(*ETCD).BatchCreateAndDecr"); E == nil {
+		r.undecided("DC", "store/etcdv3/meta BatchCreateAndDecr", "", "not found")
+	} else {
+		key := "store/etcdv3/meta BatchCreateAndDecr / the counter written is the counter read minus one"
+		keyObj := E.paramObj(2)
+		var val ast.Expr
+		E.inspectBody(func(n ast.Node) bool {
+			c, ok := n.(*ast.CallExpr)
+			if !ok || E.Callee(c) == nil || E.Callee(c).Name() != "OpPut" || len(c.Args) < 2 || E.objOf(c.Args[0]) != keyObj {
+				return true
+			}
+			val = c.Args[1]
+			return true
+		})
+		// single-assignment locals are looked through
+		resolve := func(e ast.Expr) (ast.Expr, bool) {
+			for depth := 0; depth < 4; depth++ {
+				id, ok := unparen(e).(*ast.Ident)
+				if !ok {
+					return e, true
+				}
+				o := E.objOf(id)
+				var defs []ast.Expr
+				multi := false
+				E.inspectBody(func(n ast.Node) bool {
+					switch x := n.(type) {
+					case *ast.AssignStmt:
+						for i, l := range x.Lhs {
+							if E.objOf(l) == o {
+								if len(x.Lhs) == len(x.Rhs) {
+									defs = append(defs, x.Rhs[i])
+								} else {
+									defs = append(defs, x.Rhs[0])
+								}
+							}
+						}
+					case *ast.IncDecStmt:
+						if E.objOf(x.X) == o {
+							multi = true
+						}
+					}
+					return true
+				})
+				if len(defs) != 1 || multi {
+					return e, len(defs) <= 1 && !multi
+				}
+				e = defs[0]
+			}
+			return e, true
+		}
+		okShape, why := false, "no OpPut on the counter key found"
+		if val != nil {
+			why = "the value put is `" + exprStr(val) + "`"
+			if ic, ok := unparen(val).(*ast.CallExpr); ok && E.Callee(ic) != nil && E.Callee(ic).Name() == "Itoa" && len(ic.Args) == 1 {
+				arg, single := resolve(ic.Args[0])
+				if !single {
+					why = "the value put (`" + exprStr(ic.Args[0]) + "`) is assigned more than once: it is not simply the counter read minus one"
+				} else if be, ok := unparen(arg).(*ast.BinaryExpr); ok && be.Op == token.SUB {
+					if v, isC := E.constInt(be.Y); isC && v == 1 {
+						src, single2 := resolve(be.X)
+						if c2, ok := unparen(src).(*ast.CallExpr); ok && single2 && E.Callee(c2) != nil && E.Callee(c2).Name() == "Atoi" {
+							okShape = true
+						} else {
+							why = "the minuend `" + exprStr(be.X) + "` is not the parsed counter (Atoi of the value read), assigned once"
+						}
+					}
+				} else {
+					why = "the value put is Itoa(`" + exprStr(arg) + "`), not Itoa(counter - 1)"
+				}
+			}
+		}
+		r.check(okShape, "DC", key, p.pos(E.Decl), "OpPut(decrKey, Itoa(Atoi(value read) - 1))", why+": redis decreases the counter with DECR (no floor, no other step), so the two backends report different in-progress counts for the same sequence")
+	}
+	if R := p.Fn("store/redis.(*Rediaron).BatchCreateAndDecr"); R == nil {
+		r.undecided("DC", "store/redis BatchCreateAndDecr", "", "not found")
+	} else {
+		key := "store/redis BatchCreateAndDecr / the counter is decreased with one DECR"
+		n, bad := 0, ""
+		R.inspectBody(func(x ast.Node) bool {
+			c, ok := x.(*ast.CallExpr)
+			if !ok || R.Callee(c) == nil {
+				return true
+			}
+			switch R.Callee(c).Name() {
+			case "Decr":
+				n++
+			case "DecrBy", "IncrBy", "Incr":
+				bad = R.Callee(c).Name()
+			case "Run", "Eval", "EvalSha":
+				up := strings.ToUpper(c23ScriptText(p, R, c))
+				n += strings.Count(up, "\"DECR\"")
+				for _, w := range []string{"\"DECRBY\"", "\"INCR\"", "\"INCRBY\"", "MATH.MAX", "MATH.MIN"} {
+					if strings.Contains(up, w) {
+						bad = w
+					}
+				}
+			}
+			return true
+		})
+		for _, l := range R.Lits {
+			l.inspectBody(func(x ast.Node) bool {
+				if c, ok := x.(*ast.CallExpr); ok && l.Callee(c) != nil && l.Callee(c).Name() == "Decr" {
+					n++
+				}
+				return true
+			})
+		}
+		r.check(n == 1 && bad == "", "DC", key, p.pos(R.Decl), "exactly one DECR on the counter key", fmt.Sprintf("%d DECR commands, other counter arithmetic: %q — etcd writes the counter read minus one", n, bad))
 	}
 
 }
